@@ -307,7 +307,8 @@ theorem region_slice_invariant (chr : Seq) (start end_ : Int) (it : Iv)
     (hs : 1 ≤ start) (he : end_ ≤ chr.length) (h1 : start ≤ it.1) (h2 : it.1 + 1 ≤ end_)
     (h3 : start < it.2) (h4 : it.2 ≤ end_) :
     siteRaw (setReferenceSequence chr start end_).1.refRegion start it = siteRaw chr 1 it := by
-  simp only [setReferenceSequence, siteRaw]
+  have hmax : max 1 start = start := by omega
+  simp only [setReferenceSequence, siteRaw, hmax]
   have e2 : it.2 - start + 1 = (it.2 - start - 1) + 2 := by omega
   have e3 : it.2 - 1 + 1 = (it.2 - 1 - 1) + 2 := by omega
   rw [e2, e3, pySlice_two _ _ (by omega), pySlice_two _ _ (by omega), pySlice_two _ _ (by omega),
@@ -317,6 +318,23 @@ theorem region_slice_invariant (chr : Seq) (start end_ : Int) (it : Iv)
   have a1 : (start - 1).toNat + (it.1 - start).toNat = (it.1 - 1).toNat := by omega
   have a2 : (start - 1).toNat + (it.2 - start - 1).toNat = (it.2 - 1 - 1).toNat := by omega
   rw [a1, a2]
+
+/-- a window that is asked to start at or before position 0 (0-based start of a read cluster at the first base of
+    the contig) is the window starting at base 1 -/
+theorem region_start_clamped (chr : Seq) (start end_ : Int) (hs : start ≤ 1) :
+    setReferenceSequence chr start end_ = setReferenceSequence chr 1 end_ := by
+  have : max 1 start = 1 := by omega
+  simp [setReferenceSequence, this]
+
+/-- before the clamp (`_witness`): the window asked to start at 0 is empty, so `add_canonical_info_for_model` leaves the
+    model without the attribute although its intron is GT-AG; with the clamp the flag is `True` -/
+theorem region_start_zero_witness :
+    (setReferenceSequenceNoClamp witnessSeq 0 16).1.refRegion = [] ∧
+    (addCanonicalInfoForModel (setReferenceSequenceNoClamp witnessSeq 0 16).1 ⟨[(1, 4), (15, 16)], .plus, none⟩ []).1.canonicalAttr
+      = none ∧
+    (addCanonicalInfoForModel (setReferenceSequence witnessSeq 0 16).1 ⟨[(1, 4), (15, 16)], .plus, none⟩ []).1.canonicalAttr
+      = some "True" := by
+  decide
 
 /-- hence the flag does not depend on which window of the chromosome the locus loaded (the per-locus `gene_info` of
     the read/model pass and the whole-chromosome `gene_info` of the extended annotation give the same answers), and
@@ -333,7 +351,7 @@ theorem flag_independent_of_region (chr : Seq) (start end_ : Int) (introns : Lis
     obtain ⟨h1, h2, h3, h4⟩ := hin it hit
     have := region_slice_invariant chr start end_ it hs he h1 h2 h3 h4
     simp only [canonCompute]
-    rw [show (setReferenceSequence chr start end_).1.start = start from rfl, this]
+    rw [show (setReferenceSequence chr start end_).1.start = start from by simp [setReferenceSequence]; omega, this]
   unfold pureAnswer
   rw [Bool.eq_iff_iff, List.all_eq_true, List.all_eq_true]
   constructor
